@@ -181,7 +181,8 @@ func runSvcRings(c SRCase) (fail, incon string, classes []string) {
 }
 
 func genSvcRings(t *rapid.T) SRCase {
-	c := SRCase{BufSize: 16384, ReadFirst: rapid.SampledFrom([]int{0, 300, 3000, 9000}).Draw(t, "readfirst")}
+	// buffer sizes that are not powers of two are legal settings (the rings round them up)
+	c := SRCase{BufSize: rapid.SampledFrom([]int{16384, 16384, 20000, 24576, 40000}).Draw(t, "bufsize"), ReadFirst: rapid.SampledFrom([]int{0, 300, 3000, 9000}).Draw(t, "readfirst")}
 	np := rapid.IntRange(2, 4).Draw(t, "npub")
 	c.Inproc = rapid.IntRange(0, 1).Draw(t, "inproc")
 	for p := 0; p < np; p++ {
